@@ -10,6 +10,7 @@ The glue around sympy (transform_expression, extract_atom, _convert_internal_exp
 import json
 import os
 import random
+import time
 from fractions import Fraction
 
 from .. import c13_gen as G
@@ -179,6 +180,16 @@ def make_job(rng, kind_counts, tier):
     elif entry in ("ineq", "tree"):
         e, kind = G.expression(rng, vocab)
         conds = [(rng.choice(G.CMPS[:4]), e, G.rhs(rng, vocab, "int" if kind == "rational" else None))]
+        if rng.random() < 0.08:
+            # a constant left side (D21i / D21j): a number or a constant expression against a term with a function
+            left = G.num(G.coef(rng)) if rng.random() < 0.5 else G.const_expr(rng)
+            conds = [(conds[0][0], left, G.term(rng, vocab, 1) if rng.random() < 0.7 else G.poly(rng, vocab, 2, 2))]
+            kind = "const-left"
+        if rng.random() < 0.04:
+            # an unsatisfiable / identically true comparison whose functions cancel (D21b remainder, D21k)
+            t = G.poly(rng, vocab, 2, 2)
+            conds = [(conds[0][0], ("-", t, t), G.num(G.coef(rng, "int")))]
+            kind = "cancelling"
         if entry == "ineq" and kind != "rational" and rng.random() < 0.4 and len(vocab) >= 2:
             # explicit assumptions, the interface of simplify_inequality:  A = R - B
             for _ in range(rng.randint(1, 2)):
@@ -191,6 +202,9 @@ def make_job(rng, kind_counts, tier):
         if rng.random() < 0.06:
             conds = [("=", e, e)]
             kind = "identity"
+        elif rng.random() < 0.06:
+            conds = [("=", e, ("+", e, G.num(G.coef(rng, "int"))))]
+            kind = "unsat"
     else:
         n_eq = rng.choice([0, 1, 1, 2])
         kind = "%d-equalities" % n_eq
@@ -225,7 +239,7 @@ def make_job(rng, kind_counts, tier):
     for c in conds:
         if not G.fluents_of(c if c[0] not in G.CMPS else ("+", c[1], c[2])):
             return None
-    # unsatisfiable equalities make sympy return BooleanFalse, which simplify_equality does not handle
+    # unsatisfiable equalities (sympy returns BooleanFalse; printed as given since D21k) are kept and counted
     for c in conds:
         if c[0] == "=" and not G.has_nonconst_div(("-", c[1], c[2])):
             vals = set()
@@ -235,8 +249,8 @@ def make_job(rng, kind_counts, tier):
                     vals.add(G.ev(c[1], rho) - G.ev(c[2], rho))
                 except ZeroDivisionError:
                     pass
-            if len(vals) == 1 and 0 not in vals:
-                return None
+            if len(vals) == 1 and 0 not in vals and "unsat" not in kind:
+                kind += "+unsat"
     job = {"op": "c13.run", "entry": entry, "digits": d,
            "conds": [G.show(c) for c in conds], "assumptions": [G.show(a) for a in assumptions]}
     has_div = any(G.has_nonconst_div(c if entry == "expr" else ("-", c[1], c[2])) for c in conds)
@@ -322,7 +336,7 @@ def build_inputs(rng, tier):
         inputs.append({"job": {"op": "c13.run", "entry": rng.choice(["ineq", "tree", "pre"]), "digits": 4,
                                "conds": [G.show(c)], "assumptions": []},
                        "points": [], "kind": "collision", "nontrivial": True, "fluents": None})
-    n = 420 if tier == "quick" else 3600
+    n = 360 if tier == "quick" else 3600
     tries = 0
     while len(inputs) < n and tries < 20 * n:
         tries += 1
@@ -361,8 +375,10 @@ def run(args):
     else:
         inputs, kinds = build_inputs(rng, args.tier)
         replay_glue = None
+    t0 = time.time()
     facts = run_impl([{"op": "c13.facts"}], nproc=1)[0]
     results = run_impl([i["job"] for i in inputs], hashseed=args.seed % 3)
+    t_impl = time.time() - t0
     cases, seen_glue = [], set()
     n_glue = n_trans = 0
     for inp, res in zip(inputs, results):
@@ -372,7 +388,7 @@ def run(args):
                       "input": {"job": inp["job"], "points": inp["points"], "kind": inp["kind"], "implementation": slim},
                       "nontrivial": inp["nontrivial"], "witness_of": inp.get("witness_of"),
                       "klass": classify(inp, res), "what": "e2e"})
-    glue_budget = 1500 if args.tier == "quick" else 12000
+    glue_budget = 1200 if args.tier == "quick" else 12000
     for inp, res in zip(inputs, results):
         for lit, desc, nontrivial in glue_lits(res):
             if lit in seen_glue or len(seen_glue) >= glue_budget:
@@ -386,8 +402,10 @@ def run(args):
     if replay_glue is not None:
         for lit, desc, nontrivial in glue_lits({"glue": [replay_glue]}):
             cases.append({"lit": lit, "input": desc, "nontrivial": nontrivial, "witness_of": None, "what": "glue"})
+    t0 = time.time()
     verdicts, info = run_case_shards(PROP, "Corr.C13", [c["lit"] for c in cases], shard_size=40,
                                      header_extra="From Coq Require Import QArith.\nFrom Verif Require Import Model.SymbolicGlue Spec.Poly.\n")
+    rep.coverage["timing_s"] = {"implementation": round(t_impl, 1), "coq_shards": round(time.time() - t0, 1)}
     if os.environ.get("C13_DEBUG"):
         json.dump([{"v": v, "what": c["what"], "input": c["input"]} for c, v in zip(cases, verdicts) if v != "."],
                   open(os.environ["C13_DEBUG"], "w"), indent=1)
